@@ -62,6 +62,12 @@ func renderNum(c numCase) (string, bool) {
 		fmt.Fprintf(&sb, "const list<%s> x = [%s]\n", c.Ty, c.Items[0].Lit)
 	case "mapkey":
 		fmt.Fprintf(&sb, "const map<%s, string> x = {%s: \"a\"}\n", c.Ty, c.Items[0].Lit)
+	case "enumitem-const":
+		fmt.Fprintf(&sb, "enum E { P = %s }\nconst %s x = E.P\n", c.Items[0].Lit, c.Ty)
+	case "enumitem-default":
+		fmt.Fprintf(&sb, "enum E { P = %s }\nstruct S {\n  1: optional %s f = E.P\n}\n", c.Items[0].Lit, c.Ty)
+	case "enumitem-list":
+		fmt.Fprintf(&sb, "enum E { P = %s }\ntypedef %s T\nconst list<T> x = [E.P]\n", c.Items[0].Lit, c.Ty)
 	case "enum-const":
 		fmt.Fprintf(&sb, "%sconst E x = %s\n", enumFive, c.Items[0].Lit)
 	case "enum-default":
@@ -169,10 +175,10 @@ func c09Observe(id string, c numCase, raw interface{}) wj.J {
 					nums = append(nums, wj.Limbs(uint64(int64(it.Value))))
 				}
 			}
-		case "fields-strict", "fields-nonstrict", "default", "enum-default":
+		case "fields-strict", "fields-nonstrict", "default", "enum-default", "enumitem-default":
 			if s, ok := m.Types["S"].(*compile.StructSpec); ok {
 				for _, f := range s.Fields {
-					if c.Ctx == "default" || c.Ctx == "enum-default" {
+					if c.Ctx == "default" || c.Ctx == "enum-default" || c.Ctx == "enumitem-default" {
 						constLeaves(f.Default, &nums)
 					} else {
 						nums = append(nums, wj.Limbs(uint64(int64(f.ID))))
